@@ -21,7 +21,22 @@ What is proved, for source TEXT of unbounded size:
   plain paragraph text `p1` and before `p2`: the preprocessor hands on the text in which exactly the block's text is
   replaced by `"\n" ++ placeholder 0 ++ "\n\n"`, and the stash holds exactly one entry, the block's source text
   character for character, followed by the `"\n"` that ends its last line.  Nothing else of the document changes.
+* `C04_text_unit_once` with `C04_text_comment_once`, `_pi_once`, `_doctype_once`, `_hr_once`, `_selfclose_once`: the same
+  for a comment, a processing instruction, a `<!DOCTYPE …>` declaration, `<hr>` and self-closing block tags as blocks
+  of their own.
+* `C04_text_many_once`: several raw items (blocks and units mixed) in one document: the `i`-th is replaced by the
+  placeholder of index `i`, the stash holds their source texts in order.
+* `C04_neg_indented_under_text` (F-C04-3), `C04_neg_tail_entity_moves`, `C04_neg_tail_entity_glued` (F-C04-6): the
+  defect regions characterised by theorems: what the preprocessor does instead.
 * `C04_text_block_state`: the same with the extractor's whole final state (no raw mode left over, empty `_cache`).
+* `C04_text_end_to_end` (+ `_para`, `_pieces`): the whole of `Markdown.convert` (model `PipelineH.convertH`,
+  `Model/PipelineH.lean`, tied to the real code by `harness/corr/pipelineh.py`) on flat Markdown, a raw block, flat
+  Markdown: the output of the first part, the block's source text verbatim and unwrapped, the output of the second
+  part.  `C04_text_end_to_end_anywhere`: the same with the part before and the part after each possibly absent;
+  `C04_text_block_alone`: a raw block alone converts to itself.  `C04_text_end_to_end_unit` (+ `_comment`, `_pi`,
+  `_unit_anywhere`): the same for comments, processing instructions, declarations, `<hr>`.
+  Helper lemmas: `MdVerif/Lemmas/C04EndToEnd.lean` (on top of `Lemmas/DocParse.lean` and `Lemmas/StashAtomic.lean`).
+* `C04_convertH_agrees`: `convertH` equals `Pipeline.convert` on every source without `<`.
 * `C04_text_inline_verbatim`: a text made of inline tokens only (text, references, start / end / self-closing tags
   whose names are not block-level) passes the preprocessor unchanged, and nothing is stashed.
 
@@ -33,8 +48,14 @@ F-C04-1 / F-C04-2 are outside `TokDomain`.  A comment whose closing `--` and `>`
 -/
 import MdVerif.Model.ExtractText
 import MdVerif.Spec.HtmlFrag
+import MdVerif.Spec.HtmlLex
 import MdVerif.Lemmas.HtmlTokDoc
+import MdVerif.Lemmas.HtmlTokUnits
+import MdVerif.Lemmas.HtmlTokMany
+import MdVerif.Lemmas.HtmlTokNeg
 import MdVerif.Lemmas.PipelineH
+import MdVerif.Lemmas.C04EndToEnd
+import MdVerif.Props.C01
 
 namespace MdVerif.HtmlTok
 open Py Extract HtmlFrag
@@ -50,6 +71,34 @@ theorem C04_text_domain (ts : List Tok) (h : toksOk ts = true) :
     ∃ evs, events (renderToks ts) = some (evs ++ [.close []]) ∧ evsText evs = renderToks ts := by
   have hev := events_of_toks ts h
   refine ⟨by unfold TokDomain; rw [hev]; rfl, _, hev, evsText_toksEvents _ ts [] h⟩
+
+/-- **C04, text level, domain, as a decidable predicate on TEXT.**  `HtmlFrag.lex s` (`Spec/HtmlLex.lean`) reads a text
+    as maximal text runs, `&name;`, `&#n;`, `<!--…-->`, start / end / self-closing tags with attributes, and bare `<` /
+    `&` in front of a character that cannot start a tag / reference (`1 < 2`, `a & b`), and checks its own answer
+    against `renderToks` and `toksOk`.  Every text it accepts — every text in which each `<` followed by a letter, `/`,
+    `!`, `?` starts a complete tag or comment of the grammar, each `&` followed by a letter or `#` a complete reference,
+    and neither is the last character — is inside the domain of the model, and the tokenizer reads it back without
+    dropping or inventing a character.  (So an "out of domain" answer of the model can only come from a `<` or `&` that
+    looks like the start of a token and is not: `AT&T`, `&#` without digits, an unterminated tag, a processing
+    instruction / declaration / marked section, `<script>` / `<style>`; or from a final `<` / `&`.) -/
+theorem C04_text_domain_lex (s : Str) (h : (HtmlFrag.lex s).isSome = true) :
+    TokDomain s ∧ ∃ evs, events s = some (evs ++ [.close []]) ∧ evsText evs = s := by
+  cases hl : HtmlFrag.lex s with
+  | none => rw [hl] at h; cases h
+  | some ts =>
+    obtain ⟨hr, hok⟩ := HtmlFrag.lex_sound hl
+    have := C04_text_domain ts hok
+    rw [hr] at this
+    exact this
+
+example : (HtmlFrag.lex ("one\n\n<div class=\"a b > c\"\n  id='x' hidden data-x=v1>\n*md* # not a heading\n\n<P>x &amp;&#x41; y</p>" ++
+    "<!-- </div> --><br><img src=\"s\" /></span>\n</div>\n\ntwo").toList).isSome = true := by decide +kernel
+/-- prose with stray ampersands and less-than signs is accepted -/
+example : (HtmlFrag.lex "a & b, 1 < 2 && x <= y; p<.05 &\n<b>t</b>".toList).isSome = true := by decide +kernel
+/-- not accepted: `&` in front of a letter that is not a reference, a final `&`, an unterminated tag, a processing
+    instruction -/
+example : (HtmlFrag.lex "AT&T".toList).isSome = false ∧ (HtmlFrag.lex "a &".toList).isSome = false ∧
+    (HtmlFrag.lex "<div".toList).isSome = false ∧ (HtmlFrag.lex "<?php ?>".toList).isSome = false := by decide +kernel
 
 /-! ### 2. a raw block between paragraphs -/
 
@@ -117,6 +166,203 @@ example : preprocess ("one".toList ++ nn ++ blockText exName exAttrs [] exBody +
     the code ends at the FIRST end tag that empties the tag stack -/
 example : closesOk (lower exName) [.text "a".toList, .close "div".toList, .text "b".toList] = false := by decide
 
+/-! ### 2b. comments, processing instructions, declarations, `<hr>`: blocks of their own -/
+
+/-- **C04, text level, units.**  A construct that the tokenizer consumes at a line start as one
+    `handle_empty_tag(text, is_block=True)` call (`Unit.OK`; instances below), standing between two blank lines after
+    plain text `p1` and before `p2`: the preprocessor replaces exactly its text by the placeholder line and stashes
+    its source text verbatim (plus the `"\n"` ending its line). -/
+theorem C04_text_unit_once (u : Unit) (hu : u.OK) (p1 p2 : Str) (hp1 : plainOk p1 = true) (hp2 : plainOk p2 = true) :
+    preprocess (p1 ++ nn ++ u.text ++ nn ++ p2) =
+      some (splitC '\n' (p1 ++ nn ++ (placeholder 0 ++ nn) ++ nn ++ p2), [u.text ++ ['\n']]) := by
+  unfold preprocess
+  rw [extract_unit_state u hu p1 p2 hp1 hp2]
+  simp [cleanText, nn]
+
+/-- a comment `<!--c-->` (`c` any text without `--`: several lines, blank lines, tags, Markdown) -/
+theorem C04_text_comment_once (c p1 p2 : Str) (hc : Py.contains c ['-', '-'] = false)
+    (hp1 : plainOk p1 = true) (hp2 : plainOk p2 = true) :
+    preprocess (p1 ++ nn ++ (Tok.comment c).render ++ nn ++ p2) =
+      some (splitC '\n' (p1 ++ nn ++ (placeholder 0 ++ nn) ++ nn ++ p2), [(Tok.comment c).render ++ ['\n']]) :=
+  C04_text_unit_once (commentUnit c) (commentUnit_ok c hc) p1 p2 hp1 hp2
+
+/-- a processing instruction `<?b?>` (`b` any text without `?>`) -/
+theorem C04_text_pi_once (b p1 p2 : Str) (hb : Py.contains b ['?', '>'] = false)
+    (hp1 : plainOk p1 = true) (hp2 : plainOk p2 = true) :
+    preprocess (p1 ++ nn ++ ('<' :: '?' :: b ++ ['?', '>']) ++ nn ++ p2) =
+      some (splitC '\n' (p1 ++ nn ++ (placeholder 0 ++ nn) ++ nn ++ p2), [('<' :: '?' :: b ++ ['?', '>']) ++ ['\n']]) :=
+  C04_text_unit_once (piUnit b) (piUnit_ok b hb) p1 p2 hp1 hp2
+
+/-- a declaration `<!DOCTYPE b>` / `<!doctype b>` (`b` any text without `>`) -/
+theorem C04_text_doctype_once (upper : Bool) (b p1 p2 : Str) (hb : b.contains '>' = false)
+    (hp1 : plainOk p1 = true) (hp2 : plainOk p2 = true) :
+    preprocess (p1 ++ nn ++ (doctypeOpen upper ++ b ++ ['>']) ++ nn ++ p2) =
+      some (splitC '\n' (p1 ++ nn ++ (placeholder 0 ++ nn) ++ nn ++ p2), [(doctypeOpen upper ++ b ++ ['>']) ++ ['\n']]) :=
+  C04_text_unit_once (doctypeUnit upper b) (doctypeUnit_ok upper b hb) p1 p2 hp1 hp2
+
+/-- `<hr>` with any attributes, in any letter case -/
+theorem C04_text_hr_once (name : Str) (attrs : List Attr) (trail p1 p2 : Str)
+    (hok : (Tok.open_ name attrs trail).ok = true) (hhr : lower name = hrTag)
+    (hp1 : plainOk p1 = true) (hp2 : plainOk p2 = true) :
+    preprocess (p1 ++ nn ++ (Tok.open_ name attrs trail).render ++ nn ++ p2) =
+      some (splitC '\n' (p1 ++ nn ++ (placeholder 0 ++ nn) ++ nn ++ p2), [(Tok.open_ name attrs trail).render ++ ['\n']]) :=
+  C04_text_unit_once (hrUnit name attrs trail) (hrUnit_ok name attrs trail hok hhr) p1 p2 hp1 hp2
+
+/-- a self-closing tag with a block-level name (`<hr />`, `<div class="x"/>`) -/
+theorem C04_text_selfclose_once (name : Str) (attrs : List Attr) (trail p1 p2 : Str)
+    (hok : (Tok.selfClose name attrs trail).ok = true) (hb : isBlockLevelTag (lower name) = true)
+    (hp1 : plainOk p1 = true) (hp2 : plainOk p2 = true) :
+    preprocess (p1 ++ nn ++ (Tok.selfClose name attrs trail).render ++ nn ++ p2) =
+      some (splitC '\n' (p1 ++ nn ++ (placeholder 0 ++ nn) ++ nn ++ p2),
+        [(Tok.selfClose name attrs trail).render ++ ['\n']]) :=
+  C04_text_unit_once (selfCloseUnit name attrs trail) (selfCloseUnit_ok name attrs trail hok hb) p1 p2 hp1 hp2
+
+example : Py.contains " *x*\n\n# h <div> - ".toList ['-', '-'] = false := by decide
+example : Py.contains "php echo \"</div>\"; $a->b ".toList ['?', '>'] = false := by decide
+example : (" html PUBLIC \"-//W3C//DTD XHTML 1.0//EN\"".toList).contains '>' = false := by decide
+example : (Tok.open_ "HR".toList [⟨" ".toList, "class".toList, .dq "x".toList⟩] []).ok = true ∧ lower "HR".toList = hrTag := by
+  decide
+example : preprocess "a\n\n<?php echo \"</div>\"; $a->b ?>\n\nb".toList =
+    some (splitC '\n' ("a\n\n".toList ++ placeholder 0 ++ "\n\n\n\nb".toList), ["<?php echo \"</div>\"; $a->b ?>\n".toList]) := by
+  decide +kernel
+
+/-! #### the boundaries "blank line before" and "blank line after", on the model (which mirrors the code) -/
+
+/-- F-C04-6: text behind the closing tag on the same line.  The entity is appended to `_cache` while `intail` is set
+    and is glued in front of the NEXT raw block: the second stash entry does not start with `<`. -/
+example : preprocess "<div>x</div> &amp; foo\n\n<div>y</div>\n\n".toList =
+    some (["".toList, placeholder 0, "".toList, "  foo".toList, "".toList, "".toList, placeholder 1, "".toList, "".toList,
+           "".toList, "".toList],
+          ["<div>x</div>".toList, "&amp;<div>y</div>\n".toList]) := by decide +kernel
+
+/-- F-C04-3: a raw block indented under a paragraph line: the indentation stays behind as a line of its own between
+    the paragraph line and the placeholder -/
+example : preprocess "para\n  <div>x</div>\n\n".toList =
+    some (["para".toList, "  ".toList, placeholder 0, "".toList, "".toList, "".toList, "".toList],
+          ["<div>x</div>\n".toList]) := by decide +kernel
+
+/-- no blank line behind the block: the stash entry lacks the final line feed and `intail` mode swallows the line end -/
+example : preprocess "a\n\n<div>x</div>\nb\n\n".toList =
+    some (["a".toList, "".toList, "".toList, placeholder 0, "".toList, "".toList, "b".toList, "".toList, "".toList],
+          ["<div>x</div>".toList]) := by decide +kernel
+
+/-- outside the model's domain (F-C04-1 / F-C04-2): a stray `&#` before a raw block; an unterminated tag -/
+example : preprocess "a &# b;\n\n<div>*x*</div>\n\n".toList = none ∧ preprocess "<div".toList = none := by decide +kernel
+
+/-! ### 2c. several raw items in one document: the stash indices -/
+
+/-- **C04, text level, several raw items.**  `t0` is plain text that ends with a blank line, or nothing; `secs` lists
+    raw items (`RawSec`: block elements `blockSec_ok`, units `unitSec_ok`), each followed by plain text that starts with
+    a blank line and — when another raw item follows — ends with one (`secsOk`).  The preprocessor replaces the `i`-th
+    item by the placeholder of index `i` (with a line feed in front for block elements) and a blank line, keeps every
+    plain text as it is, and the stash holds the items' source texts verbatim, in order, each exactly once. -/
+theorem C04_text_many_once (t0 : Str) (secs : List (RawSec × Str))
+    (ht0 : t0 = [] ∨ (plainOk t0 = true ∧ ∃ t, t0 = t ++ nn)) (hsecs : secsOk secs) :
+    preprocess (t0 ++ flatSecs secs) =
+      some (splitC '\n' (t0 ++ outSecs 0 secs), secs.map (fun x => x.1.text ++ ['\n'])) :=
+  preprocess_many t0 secs ht0 hsecs
+
+/-- a block, a comment, another block: the hypotheses, built from the instances -/
+example : secsOk
+    [ (⟨blockText exName exAttrs [] exBody, true⟩, "\n\ntext *a*\n\n".toList),
+      (⟨(Tok.comment " c ".toList).render, false⟩, "\n\n".toList),
+      (⟨blockText "P".toList [] [] [.text "x".toList], true⟩, "\n\nend".toList) ] :=
+  ⟨blockSec_ok exName exAttrs [] exBody (by decide +kernel) (by decide) (by decide) (by decide +kernel) (by decide +kernel),
+   ⟨_, rfl⟩, by decide, ⟨"\n\ntext *a*".toList, rfl⟩,
+   unitSec_ok (commentUnit " c ".toList) (commentUnit_ok _ (by decide)), ⟨_, rfl⟩, by decide, ⟨[], rfl⟩,
+   blockSec_ok "P".toList [] [] [.text "x".toList] (by decide) (by decide) (by decide) (by decide) (by decide),
+   ⟨_, rfl⟩, by decide⟩
+
+example : preprocess "a\n\n<div>*x*</div>\n\nb\n\n<!-- c -->\n\n<p>y</p>\n\nz".toList =
+    some (splitC '\n' ("a\n\n\n".toList ++ placeholder 0 ++ "\n\n\n\nb\n\n".toList ++ placeholder 1 ++
+            "\n\n\n\n\n".toList ++ placeholder 2 ++ "\n\n\n\nz".toList),
+          ["<div>*x*</div>\n".toList, "<!-- c -->\n".toList, "<p>y</p>\n".toList]) := by decide +kernel
+
+/-! ### 2d. the defect regions, characterised: what the code does INSTEAD (negative theorems) -/
+
+/-- **F-C04-3, characterised.**  A raw block directly under a line of text `q` (no blank line between them), indented by
+    `i ≤ 3` spaces: the tokenizer is "at a line start" (`at_line_start()` tolerates three spaces), the block is
+    extracted and stashed verbatim — but the text handed on is `q`, a line feed, THE `i` SPACES, a line feed, the
+    placeholder: for `i = 0` that is `q ¶ placeholder` exactly as with a blank line in the source (so the blank line
+    before a raw block is NOT needed at the left margin); for `i = 1, 2, 3` the indentation stays behind as a line of
+    spaces, no blank line separates the paragraph from the placeholder, and the block parser reads both as ONE
+    paragraph (end to end: `<p>a` / `<br />` / the block / `</p>`, kernel-checked below). -/
+theorem C04_neg_indented_under_text (q p2 name : Str) (i : Nat) (hi : i ≤ 3) (attrs : List Attr) (trail : Str)
+    (body : List Tok) (hq : plainOk q = true) (hp2 : plainOk p2 = true)
+    (hopen : (Tok.open_ name attrs trail).ok = true) (hblock : isBlockLevelTag (lower name) = true)
+    (hhr : lower name ≠ hrTag) (hbody : toksOk body = true) (hcl : closesOk (lower name) body = true) :
+    preprocess (q ++ ['\n'] ++ sp i ++ blockText name attrs trail body ++ nn ++ p2) =
+      some (splitC '\n' (q ++ ['\n'] ++ sp i ++ ['\n'] ++ placeholder 0 ++ nn ++ nn ++ p2),
+            [blockText name attrs trail body ++ ['\n']]) := by
+  have hplain : plainOk (q ++ ['\n'] ++ sp i) = true := by
+    simp only [plainOk, Bool.and_eq_true, Bool.not_eq_true', List.contains_eq_mem, decide_eq_false_iff_not,
+      List.mem_append, not_or] at hq ⊢
+    refine ⟨⟨⟨hq.1, by decide⟩, ?_⟩, ⟨⟨hq.2, by decide⟩, ?_⟩⟩ <;>
+      (intro h; have := List.eq_of_mem_replicate h; revert this; decide)
+  unfold preprocess
+  rw [extract_block_state_tx (q ++ ['\n'] ++ sp i) p2 name attrs trail body hplain (by simp)
+    (fun s => atLineStart_indent q s i hi) hp2 hopen hblock hhr hbody hcl]
+  simp [cleanText, nn, List.append_assoc]
+
+/-- **F-C04-6, characterised (no further raw block).**  An entity reference `&e;` behind the closing tag on the same
+    line (after a text run `t1` without line feed, possibly empty; `t2` is the plain text behind it):
+    * the block's stash entry LACKS the final line feed (no blank line follows the end tag: `intail` mode);
+    * the entity reference DISAPPEARS from its place: the text handed on is `t1 ++ t2`;
+    * it is stashed as a SECOND entry whose placeholder is appended at the very END of the document, glued to the last
+      line of `p2` — end to end it comes out as a paragraph of its own (or inside the last one) after everything else. -/
+theorem C04_neg_tail_entity_moves (p1 p2 t1 t2 ename name : Str) (attrs : List Attr) (trail : Str) (body : List Tok)
+    (hp1 : plainOk p1 = true) (hp2 : plainOk p2 = true)
+    (ht1 : plainOk t1 = true) (ht1nl : '\n' ∉ t1) (ht2 : plainOk t2 = true) (hen : entityNameOk ename = true)
+    (hopen : (Tok.open_ name attrs trail).ok = true) (hblock : isBlockLevelTag (lower name) = true)
+    (hhr : lower name ≠ hrTag) (hbody : toksOk body = true) (hcl : closesOk (lower name) body = true) :
+    preprocess (p1 ++ nn ++ blockText name attrs trail body ++ t1 ++ ('&' :: ename ++ [';']) ++ t2 ++ nn ++ p2) =
+      some (splitC '\n' (p1 ++ nn ++ ['\n'] ++ placeholder 0 ++ nn ++ t1 ++ t2 ++ nn ++ p2 ++ placeholder 1),
+            [blockText name attrs trail body, '&' :: ename ++ [';']]) := by
+  unfold preprocess
+  rw [extract_tail_entity_state p1 p2 t1 t2 ename name attrs trail body hp1 hp2 ht1 ht1nl ht2 hen hopen hblock hhr
+    hbody hcl]
+  cases h : t1.isEmpty
+  · simp [cleanText, nn, List.append_assoc]
+  · have : t1 = [] := by simpa using h
+    subst this
+    simp [cleanText, nn, List.append_assoc]
+
+/-- **F-C04-6, characterised (another raw block follows).**  The leftover entity reference in `_cache` is glued IN
+    FRONT of the next raw block: the second stash entry is `&e;` followed by the second block — it does not start with
+    `<`, so `RawHtmlPostprocessor.isblocklevel` rejects it and the second block comes out wrapped in `<p>…</p>` with
+    the entity reference in front (kernel-checked below). -/
+theorem C04_neg_tail_entity_glued (p1 p3 t1 t2 ename : Str)
+    (n1 : Str) (a1 : List Attr) (tr1 : Str) (b1 : List Tok) (n2 : Str) (a2 : List Attr) (tr2 : Str) (b2 : List Tok)
+    (hp1 : plainOk p1 = true) (hp3 : plainOk p3 = true)
+    (ht1 : plainOk t1 = true) (ht1nl : '\n' ∉ t1) (ht2 : plainOk t2 = true) (hen : entityNameOk ename = true)
+    (ho1 : (Tok.open_ n1 a1 tr1).ok = true) (hb1 : isBlockLevelTag (lower n1) = true) (hh1 : lower n1 ≠ hrTag)
+    (hbd1 : toksOk b1 = true) (hc1 : closesOk (lower n1) b1 = true)
+    (ho2 : (Tok.open_ n2 a2 tr2).ok = true) (hb2 : isBlockLevelTag (lower n2) = true) (hh2 : lower n2 ≠ hrTag)
+    (hbd2 : toksOk b2 = true) (hc2 : closesOk (lower n2) b2 = true) :
+    preprocess (p1 ++ nn ++ blockText n1 a1 tr1 b1 ++ t1 ++ ('&' :: ename ++ [';']) ++ t2 ++ nn ++
+        blockText n2 a2 tr2 b2 ++ nn ++ p3) =
+      some (splitC '\n' (p1 ++ nn ++ ['\n'] ++ placeholder 0 ++ nn ++ t1 ++ t2 ++ nn ++ ['\n'] ++ placeholder 1 ++ nn ++
+              nn ++ p3),
+            [blockText n1 a1 tr1 b1, ('&' :: ename ++ [';']) ++ blockText n2 a2 tr2 b2 ++ ['\n']]) := by
+  unfold preprocess
+  rw [extract_tail_entity_glued_state p1 p3 t1 t2 ename n1 a1 tr1 b1 n2 a2 tr2 b2 hp1 hp3 ht1 ht1nl ht2 hen ho1 hb1 hh1
+    hbd1 hc1 ho2 hb2 hh2 hbd2 hc2]
+  cases h : t1.isEmpty
+  · simp [cleanText, nn, List.append_assoc]
+  · have : t1 = [] := by simpa using h
+    subst this
+    simp [cleanText, nn, List.append_assoc]
+
+/-- the end-to-end consequences, evaluated by the kernel on the model (= the real code on these inputs) -/
+example : PipelineH.convertH {} "a\n  <div>x</div>\n\nb".toList =
+    .ok "<p>a\n<br />\n<div>x</div>\n</p>\n<p>b</p>".toList := by decide +kernel
+example : PipelineH.convertH {} "a\n<div>x</div>\n\nb".toList =
+    .ok "<p>a</p>\n<div>x</div>\n\n<p>b</p>".toList := by decide +kernel
+example : PipelineH.convertH {} "a\n\n<div>x</div> t &amp; u\n\nb".toList =
+    .ok "<p>a</p>\n<div>x</div>\n<p>t  u</p>\n<p>b</p>\n<p>&amp;</p>".toList := by decide +kernel
+example : PipelineH.convertH {} "a\n\n<div>x</div> &amp;\n\n<p>y</p>\n\nb".toList =
+    .ok "<p>a</p>\n<div>x</div>\n<p>&amp;<p>y</p>\n</p>\n<p>b</p>".toList := by decide +kernel
+
 /-! ### 3. inline markup stays in the text -/
 
 /-- **C04, text level, inline tags and references.**  A text made of inline tokens only -- text runs, `&name;`,
@@ -163,5 +409,179 @@ example : (extractText "a &amp; b &#38x AT&T &# c; d &".toList).map cleanText =
 example : Pipeline.convert {} "<div>*x*</div>\n\n*y*".toList = .ood ∧
     PipelineH.convertH {} "<div>*x*</div>\n\n*y*".toList = .ok "<div>*x*</div>\n\n<p><em>y</em></p>".toList := by
   decide +kernel
+
+/-! ### 5. end to end: the raw block reaches the output verbatim, once, unwrapped -/
+
+/-- **C04, end to end (source text to output text).**  A flat Markdown document `dA` (rules, paragraphs, ATX and Setext
+    headings of words and backslash escapes — the sub-grammar of `C01_flat`) in ANY spelling, a blank line, a raw block
+    `<name attrs trail> body </name>` at the left margin, a blank line, another flat document `dB`:
+    `Markdown.convert` returns the output of `dA`, a line feed, THE BLOCK'S SOURCE TEXT character for character, a
+    blank line, the output of `dB`.  So the block is copied verbatim, exactly once, not wrapped in `<p>`, and the
+    Markdown syntax inside it (`body` is any token sequence: text with blank lines and Markdown markup, nested
+    elements, comments, references) is left untouched, while the Markdown around it is converted as usual.
+
+    Hypotheses on the block beyond those of `C04_text_block_once`:
+    * `hsafe`: input normalisation leaves every line of the block alone (no tab, CR, STX, ETX; no line of spaces only);
+    * `hfs`: the character behind the tag name is a space or `>` — with a line feed there,
+      `RawHtmlPostprocessor.isblocklevel` does not recognise the tag and the block stays inside `<p>…</p>` (F-C04-4). -/
+theorem C04_text_end_to_end (dA dB : DocSpec.Doc) (spA spB : DocSpec.Spelling)
+    (hwfA : DocSpec.WF dA = true) (hflatA : DocSpec.FlatDoc dA = true)
+    (hwfB : DocSpec.WF dB = true) (hflatB : DocSpec.FlatDoc dB = true)
+    (name : Str) (attrs : List Attr) (trail : Str) (body : List Tok)
+    (hopen : (Tok.open_ name attrs trail).ok = true) (hblock : isBlockLevelTag (lower name) = true)
+    (hhr : lower name ≠ hrTag) (hbody : toksOk body = true) (hcl : closesOk (lower name) body = true)
+    (hsafe : ∀ l ∈ lines (blockText name attrs trail body), DocParse.lineSafe l = true)
+    (hfs : C04E2E.firstSepOk attrs trail = true) :
+    PipelineH.convertH {} (DocSpec.print dA spA ++ nn ++ blockText name attrs trail body ++ nn ++ DocSpec.print dB spB) =
+      .ok (DocSpec.spec dA ++ ['\n'] ++ (blockText name attrs trail body ++ ['\n']) ++ ['\n'] ++ DocSpec.spec dB) :=
+  C04E2E.convertH_flat_block dA dB spA spB hwfA hflatA hwfB hflatB name attrs trail body hopen hblock hhr hbody hcl
+    hsafe hfs
+
+/-- the simplest instance, in plain terms: a one-line paragraph `t1` (any characters other than `<`, `&`, tab, CR, STX,
+    ETX, no white space at either end; written with every Markdown-special character backslash-escaped), the block, a
+    one-line paragraph `t2`:  `<p>t1</p>`, the block's source text, a blank line, `<p>t2</p>` (the paragraph texts
+    HTML-escaped). -/
+theorem C04_text_end_to_end_para (t1 t2 : Str) (ht1 : DocParse.lineText t1 = true) (ht2 : DocParse.lineText t2 = true)
+    (name : Str) (attrs : List Attr) (trail : Str) (body : List Tok)
+    (hopen : (Tok.open_ name attrs trail).ok = true) (hblock : isBlockLevelTag (lower name) = true)
+    (hhr : lower name ≠ hrTag) (hbody : toksOk body = true) (hcl : closesOk (lower name) body = true)
+    (hsafe : ∀ l ∈ lines (blockText name attrs trail body), DocParse.lineSafe l = true)
+    (hfs : C04E2E.firstSepOk attrs trail = true) :
+    PipelineH.convertH {} (Escape.escAll Generated.escapedChars t1 ++ nn ++ blockText name attrs trail body ++ nn ++
+        Escape.escAll Generated.escapedChars t2) =
+      .ok ("<p>".toList ++ Ser.escCdata t1 ++ "</p>".toList ++ ['\n'] ++ (blockText name attrs trail body ++ ['\n']) ++
+        ['\n'] ++ ("<p>".toList ++ Ser.escCdata t2 ++ "</p>".toList)) :=
+  C04E2E.convertH_para_block t1 t2 ht1 ht2 name attrs trail body hopen hblock hhr hbody hcl hsafe hfs
+
+/-- the same for every configuration that keeps what the proof uses (`EscOK`: the usual escapable characters are
+    escapable; no character of an HTML placeholder is; default block-level list; XHTML output) and for any blocks
+    before and after that are "pieces" in the sense of `Lemmas/DocParse.lean` -/
+theorem C04_text_end_to_end_pieces (cfg : Pipeline.Cfg) (hE : DocParse.EscOK cfg.esc) (hF : C04E2E.PhFree cfg.esc)
+    (hbl : cfg.blockLevel = TreeProc.defaultBlockLevel) (hfmt : cfg.fmt = .xhtml) (htab : 0 < cfg.tab)
+    (A B : List DocParse.Piece) (hA : A ≠ []) (hB : B ≠ [])
+    (hPA : ∀ p ∈ A, DocParse.PieceOK cfg.esc cfg.tab p) (hPB : ∀ p ∈ B, DocParse.PieceOK cfg.esc cfg.tab p)
+    (name : Str) (attrs : List Attr) (trail : Str) (body : List Tok)
+    (hopen : (Tok.open_ name attrs trail).ok = true) (hblock : isBlockLevelTag (lower name) = true)
+    (hhr : lower name ≠ hrTag) (hbody : toksOk body = true) (hcl : closesOk (lower name) body = true)
+    (hsafe : ∀ l ∈ lines (blockText name attrs trail body), DocParse.lineSafe l = true)
+    (hbh : Post.isBlockLevelHtml TreeProc.defaultBlockLevel (blockText name attrs trail body ++ ['\n']) = true) :
+    PipelineH.convertH cfg (C04E2E.srcOf A ++ nn ++ blockText name attrs trail body ++ nn ++ C04E2E.srcOf B) =
+      .ok (DocParse.joinOut (A.map (·.leaf)) ++ ['\n'] ++ (blockText name attrs trail body ++ ['\n']) ++ ['\n'] ++
+        DocParse.joinOut (B.map (·.leaf))) :=
+  C04E2E.convertH_block cfg hE hF hbl hfmt htab A B hA hB hPA hPB name attrs trail body hopen hblock hhr hbody hcl
+    hsafe hbh
+
+/-- **C04, end to end, units.**  The same for a comment, a processing instruction, a `<!DOCTYPE …>` declaration or
+    `<hr>` (any `Unit`) as a block of its own between flat Markdown documents. -/
+theorem C04_text_end_to_end_unit (u : Unit) (hu : u.OK) (dA dB : DocSpec.Doc) (spA spB : DocSpec.Spelling)
+    (hwfA : DocSpec.WF dA = true) (hflatA : DocSpec.FlatDoc dA = true)
+    (hwfB : DocSpec.WF dB = true) (hflatB : DocSpec.FlatDoc dB = true)
+    (hsafe : ∀ l ∈ lines u.text, DocParse.lineSafe l = true)
+    (hbh : Post.isBlockLevelHtml TreeProc.defaultBlockLevel (u.text ++ ['\n']) = true) :
+    PipelineH.convertH {} (DocSpec.print dA spA ++ nn ++ u.text ++ nn ++ DocSpec.print dB spB) =
+      .ok (DocSpec.spec dA ++ ['\n'] ++ (u.text ++ ['\n']) ++ ['\n'] ++ DocSpec.spec dB) :=
+  C04E2E.convertH_flat_unit u hu dA dB spA spB hwfA hflatA hwfB hflatB hsafe hbh
+
+/-- a comment between flat Markdown documents reaches the output verbatim -/
+theorem C04_text_end_to_end_comment (c : Str) (hc : Py.contains c ['-', '-'] = false)
+    (dA dB : DocSpec.Doc) (spA spB : DocSpec.Spelling)
+    (hwfA : DocSpec.WF dA = true) (hflatA : DocSpec.FlatDoc dA = true)
+    (hwfB : DocSpec.WF dB = true) (hflatB : DocSpec.FlatDoc dB = true)
+    (hsafe : ∀ l ∈ lines (Tok.comment c).render, DocParse.lineSafe l = true) :
+    PipelineH.convertH {} (DocSpec.print dA spA ++ nn ++ (Tok.comment c).render ++ nn ++ DocSpec.print dB spB) =
+      .ok (DocSpec.spec dA ++ ['\n'] ++ ((Tok.comment c).render ++ ['\n']) ++ ['\n'] ++ DocSpec.spec dB) :=
+  C04_text_end_to_end_unit (commentUnit c) (commentUnit_ok c hc) dA dB spA spB hwfA hflatA hwfB hflatB hsafe
+    (C04E2E.isBlockLevelHtml_bang _ '!' (Or.inl rfl) _)
+
+/-- a processing instruction between flat Markdown documents reaches the output verbatim -/
+theorem C04_text_end_to_end_pi (b : Str) (hb : Py.contains b ['?', '>'] = false)
+    (dA dB : DocSpec.Doc) (spA spB : DocSpec.Spelling)
+    (hwfA : DocSpec.WF dA = true) (hflatA : DocSpec.FlatDoc dA = true)
+    (hwfB : DocSpec.WF dB = true) (hflatB : DocSpec.FlatDoc dB = true)
+    (hsafe : ∀ l ∈ lines ('<' :: '?' :: b ++ ['?', '>']), DocParse.lineSafe l = true) :
+    PipelineH.convertH {} (DocSpec.print dA spA ++ nn ++ ('<' :: '?' :: b ++ ['?', '>']) ++ nn ++ DocSpec.print dB spB) =
+      .ok (DocSpec.spec dA ++ ['\n'] ++ (('<' :: '?' :: b ++ ['?', '>']) ++ ['\n']) ++ ['\n'] ++ DocSpec.spec dB) :=
+  C04_text_end_to_end_unit (piUnit b) (piUnit_ok b hb) dA dB spA spB hwfA hflatA hwfB hflatB hsafe
+    (C04E2E.isBlockLevelHtml_bang _ '?' (Or.inr rfl) _)
+
+example : ∀ l ∈ lines (Tok.comment " *x*\n\n# h <div> - ".toList).render, DocParse.lineSafe l = true := by decide +kernel
+
+/-- **C04, end to end, the block anywhere.**  `before` and `after` are each either absent or a well-formed flat
+    Markdown document in some spelling (`flatOk`); the source is `before ¶`, the block, `¶ after` (`srcBefore`,
+    `srcAfter`), the output is the output of `before` and a line feed, the block's source text verbatim, a blank line
+    and the output of `after` (`outBefore`, `outAfter`).  With both absent: **a raw block alone converts to itself.** -/
+theorem C04_text_end_to_end_anywhere (before after : Option (DocSpec.Doc × DocSpec.Spelling))
+    (hb4 : C04E2E.flatOk before = true) (haf : C04E2E.flatOk after = true)
+    (name : Str) (attrs : List Attr) (trail : Str) (body : List Tok)
+    (hopen : (Tok.open_ name attrs trail).ok = true) (hblock : isBlockLevelTag (lower name) = true)
+    (hhr : lower name ≠ hrTag) (hbody : toksOk body = true) (hcl : closesOk (lower name) body = true)
+    (hsafe : ∀ l ∈ lines (blockText name attrs trail body), DocParse.lineSafe l = true)
+    (hfs : C04E2E.firstSepOk attrs trail = true) :
+    PipelineH.convertH {} (C04E2E.srcBefore before ++ blockText name attrs trail body ++ C04E2E.srcAfter after) =
+      .ok (C04E2E.outBefore before ++ blockText name attrs trail body ++ C04E2E.outAfter after) :=
+  C04E2E.convertH_flat_block_anywhere before after hb4 haf name attrs trail body hopen hblock hhr hbody hcl hsafe hfs
+
+/-- a raw block that is the whole document -/
+theorem C04_text_block_alone (name : Str) (attrs : List Attr) (trail : Str) (body : List Tok)
+    (hopen : (Tok.open_ name attrs trail).ok = true) (hblock : isBlockLevelTag (lower name) = true)
+    (hhr : lower name ≠ hrTag) (hbody : toksOk body = true) (hcl : closesOk (lower name) body = true)
+    (hsafe : ∀ l ∈ lines (blockText name attrs trail body), DocParse.lineSafe l = true)
+    (hfs : C04E2E.firstSepOk attrs trail = true) :
+    PipelineH.convertH {} (blockText name attrs trail body) = .ok (blockText name attrs trail body) := by
+  have := C04_text_end_to_end_anywhere none none rfl rfl name attrs trail body hopen hblock hhr hbody hcl hsafe hfs
+  simpa [C04E2E.srcBefore, C04E2E.srcAfter, C04E2E.outBefore, C04E2E.outAfter] using this
+
+/-- the same for units (comment, processing instruction, declaration, `<hr>`) -/
+theorem C04_text_end_to_end_unit_anywhere (before after : Option (DocSpec.Doc × DocSpec.Spelling))
+    (hb4 : C04E2E.flatOk before = true) (haf : C04E2E.flatOk after = true)
+    (u : Unit) (hu : u.OK) (hsafe : ∀ l ∈ lines u.text, DocParse.lineSafe l = true)
+    (hbh : Post.isBlockLevelHtml TreeProc.defaultBlockLevel (u.text ++ ['\n']) = true)
+    (hbe : u.text.getLast? = some '>') :
+    PipelineH.convertH {} (C04E2E.srcBefore before ++ u.text ++ C04E2E.srcAfter after) =
+      .ok (C04E2E.outBefore before ++ u.text ++ C04E2E.outAfter after) :=
+  C04E2E.convertH_flat_unit_anywhere before after hb4 haf u hu hsafe hbh hbe
+
+example : C04E2E.flatOk (some (DocParse.sampleFlat, ⟨[2, 3, 3, 1, 4, 2, 2, 2, 5, 3, 10, 1]⟩)) = true ∧
+    C04E2E.flatOk none = true := by decide
+
+/-- `convert("<div class=…>…</div>") = the same text` for the block of section 2 -/
+example : PipelineH.convertH {} (blockText exName exAttrs [] exBody) = .ok (blockText exName exAttrs [] exBody) :=
+  C04_text_block_alone exName exAttrs [] exBody (by decide +kernel) (by decide) (by decide) (by decide +kernel)
+    (by decide +kernel) (by decide +kernel) (by decide)
+
+/-! #### the hypotheses are satisfiable (the block of section 2; `DocParse.sampleFlat` of `Props/C01.lean` has every
+    kind of flat block) -/
+
+example : ∀ l ∈ lines (blockText exName exAttrs [] exBody), DocParse.lineSafe l = true := by decide +kernel
+example : C04E2E.firstSepOk exAttrs [] = true := by decide
+example : DocParse.lineText "one *not em* 2 > 1".toList = true ∧ DocParse.lineText "two".toList = true := by decide
+example : Escape.escAll Generated.escapedChars "one *not em* 2 > 1".toList = "one \\*not em\\* 2 \\> 1".toList := by
+  decide
+
+/-- the instance of `C04_text_end_to_end_para`, with the strings spelled out -/
+example : PipelineH.convertH {}
+    ("one \\*not em\\* 2 \\> 1\n\n<div class=\"a b > c\"\n  id='x' hidden data-x=v1>\n*md* # not a heading\n\n<P>x &amp;&#x41; y</p>" ++
+     "<!-- </div> --><br><img src=\"s\" /></span>\n</div>\n\ntwo").toList =
+    .ok ("<p>one *not em* 2 &gt; 1</p>\n<div class=\"a b > c\"\n  id='x' hidden data-x=v1>\n*md* # not a heading\n\n" ++
+      "<P>x &amp;&#x41; y</p><!-- </div> --><br><img src=\"s\" /></span>\n</div>\n\n<p>two</p>").toList := by
+  have h := C04_text_end_to_end_para "one *not em* 2 > 1".toList "two".toList (by decide) (by decide) exName exAttrs []
+    exBody (by decide +kernel) (by decide) (by decide) (by decide +kernel) (by decide +kernel) (by decide +kernel)
+    (by decide)
+  have e1 : Escape.escAll Generated.escapedChars "one *not em* 2 > 1".toList ++ nn ++ blockText exName exAttrs [] exBody ++
+      nn ++ Escape.escAll Generated.escapedChars "two".toList =
+      ("one \\*not em\\* 2 \\> 1\n\n<div class=\"a b > c\"\n  id='x' hidden data-x=v1>\n*md* # not a heading\n\n<P>x &amp;&#x41; y</p>" ++
+       "<!-- </div> --><br><img src=\"s\" /></span>\n</div>\n\ntwo").toList := by decide +kernel
+  have e2 : "<p>".toList ++ Ser.escCdata "one *not em* 2 > 1".toList ++ "</p>".toList ++ ['\n'] ++
+      (blockText exName exAttrs [] exBody ++ ['\n']) ++ ['\n'] ++
+      ("<p>".toList ++ Ser.escCdata "two".toList ++ "</p>".toList) =
+      ("<p>one *not em* 2 &gt; 1</p>\n<div class=\"a b > c\"\n  id='x' hidden data-x=v1>\n*md* # not a heading\n\n" ++
+        "<P>x &amp;&#x41; y</p><!-- </div> --><br><img src=\"s\" /></span>\n</div>\n\n<p>two</p>").toList := by decide +kernel
+  rw [e1, e2] at h
+  exact h
+
+/-- the boundary `hfs` (F-C04-4): with a line feed directly behind the tag name the stash entry is not recognised
+    as block-level -/
+example : C04E2E.firstSepOk [⟨"\n".toList, "id".toList, .dq "x".toList⟩] [] = false ∧
+    Post.isBlockLevelHtml TreeProc.defaultBlockLevel "<div\nid=\"x\">y</div>\n".toList = false := by decide +kernel
 
 end MdVerif.HtmlTok
